@@ -186,6 +186,63 @@ Qed.
 Lemma apply_defaults_length : forall tb c r, length (apply_defaults_from tb c r) = length r.
 Proof. intros tb c r. revert c. induction r; intros c; cbn; auto. Qed.
 
+(** appending rows that have the right arity, fresh NULL-free keys and all their parents *)
+Lemma append_rows_ok : forall d t tb rs,
+  inv d -> RI d -> get_table d t = Some tb ->
+  (forall r, In r rs -> length r = ncols tb) ->
+  (forall pk, t_pk tb = Some pk ->
+     NoDup (map (proj pk) rs) /\
+     forall r, In r rs -> ~ In (proj pk r) (map (proj pk) (t_rows tb)) /\ has_null (proj pk r) = false) ->
+  (forall r fk, In r rs -> In fk (t_fks tb) -> has_null (proj (fk_cols fk) r) = false ->
+     exists pt pr, get_table d (fk_parent fk) = Some pt /\ In pr (t_rows pt)
+                   /\ proj (fk_pcols fk) pr = proj (fk_cols fk) r) ->
+  inv (set_rows d t (t_rows tb ++ rs)) /\ RI (set_rows d t (t_rows tb ++ rs)).
+Proof.
+  intros d t tb rs I R G HA HK HP.
+  pose proof (get_table_In _ _ _ G) as [Gin Gn].
+  assert (SS : sames d (set_rows d t (t_rows tb ++ rs))) by apply set_rows_sames.
+  assert (ONE : forall y, In y d -> t_name y = t -> y = tb).
+  { intros y Hy Hn. pose proof (In_get_table _ _ (inv_names _ I) Hy) as Gy. rewrite Hn in Gy. congruence. }
+  assert (I' : inv (set_rows d t (t_rows tb ++ rs))).
+  { constructor.
+    - rewrite names_set_rows. apply inv_names. exact I.
+    - intros x row Hx Hrow. apply In_set_rows in Hx. destruct Hx as [[y [Hy [Hn ->]]]|[Hx Hn]].
+      + rewrite (ONE y Hy Hn) in *. cbn in Hrow. apply in_app_or in Hrow. destruct Hrow as [Hrow|Hrow].
+        * apply (inv_arity _ I tb); assumption.
+        * apply (HA row Hrow).
+      + apply (inv_arity _ I x); assumption.
+    - rewrite (schema_standard_sames _ _ SS). apply inv_std. exact I.
+    - intros x pk Hx Hpk. apply In_set_rows in Hx. destruct Hx as [[y [Hy [Hn ->]]]|[Hx Hn]].
+      + rewrite (ONE y Hy Hn) in *. cbn in *. rewrite map_app. destruct (HK pk Hpk) as [ND KK].
+        apply NoDup_app_intro.
+        * apply (inv_keys _ I tb pk Gin Hpk).
+        * exact ND.
+        * intros k Hk1 Hk2. apply in_map_iff in Hk2. destruct Hk2 as [x [Ex Hx]].
+          destruct (KK x Hx) as [K2 _]. apply K2. rewrite Ex. exact Hk1.
+      + apply (inv_keys _ I x pk Hx Hpk).
+    - eapply pk_cols_ok_sames; [exact SS|apply inv_pkcols; exact I].
+    - intros x pk row Hx Hpk Hrow. apply In_set_rows in Hx. destruct Hx as [[y [Hy [Hn ->]]]|[Hx Hn]].
+      + rewrite (ONE y Hy Hn) in *. cbn in *. apply in_app_or in Hrow. destruct Hrow as [Hrow|Hrow].
+        * apply (inv_pknn _ I tb pk row Gin Hpk Hrow).
+        * apply (HK pk Hpk). exact Hrow.
+      + apply (inv_pknn _ I x pk row Hx Hpk Hrow). }
+  split; [exact I'|].
+  assert (PARENT : forall fk vs, (exists pt pr, get_table d (fk_parent fk) = Some pt /\ In pr (t_rows pt)
+                                  /\ proj (fk_pcols fk) pr = vs) ->
+            exists pt pr, get_table (set_rows d t (t_rows tb ++ rs)) (fk_parent fk) = Some pt /\ In pr (t_rows pt)
+                                  /\ proj (fk_pcols fk) pr = vs).
+  { intros fk vs [pt [pr [Gp [Hpr Ek]]]]. rewrite get_set_rows. destruct (Nat.eqb t (fk_parent fk)) eqn:Et.
+    - apply Nat.eqb_eq in Et. rewrite <- Et in Gp. rewrite G in Gp. inversion Gp; subst pt.
+      rewrite <- Et, G. cbn. exists (with_rows tb (t_rows tb ++ rs)), pr. cbn. split; [reflexivity|].
+      split; [apply in_or_app; left; exact Hpr|exact Ek].
+    - exists pt, pr. auto. }
+  intros ct fk row Hct Hfk Hrow HN. apply In_set_rows in Hct. destruct Hct as [[y [Hy [Hn ->]]]|[Hx Hn]].
+  - rewrite (ONE y Hy Hn) in *. cbn in *. apply PARENT. apply in_app_or in Hrow. destruct Hrow as [Hrow|Hrow].
+    + apply (R tb fk row Gin Hfk Hrow HN).
+    + apply HP; assumption.
+  - apply PARENT. apply (R ct fk row Hx Hfk Hrow HN).
+Qed.
+
 Theorem exec_insert_ok : forall d t rs0 d' ev r,
   inv d -> RI d -> exec_insert d t rs0 = ((d', ev), r) -> ev = [] /\ inv d' /\ RI d'.
 Proof.
@@ -196,8 +253,6 @@ Proof.
   inversion E; subst d' ev r. clear E. split; [reflexivity|].
   destruct (insert_validate_none _ _ _ _ V) as [F K]. rewrite Forall_forall in F.
   pose proof (get_table_In _ _ _ G) as [Gin Gn].
-  assert (SS : sames d (set_rows d t (t_rows tb ++ rs))) by apply set_rows_sames.
-  (* column-order tuples are declaration-order tuples *)
   assert (PKC : forall pk x, t_pk tb = Some pk -> In x rs -> proj_colorder pk x = proj pk x).
   { intros pk x Hpk Hx. destruct (F x Hx) as [Hl _]. apply proj_colorder_asc.
     - pose proof (inv_std _ I) as S. unfold schema_standard in S. rewrite forallb_forall in S.
@@ -210,51 +265,97 @@ Proof.
     apply andb_true_iff in S. destruct S as [S _]. apply andb_true_iff in S. destruct S as [S1 S2].
     apply proj_colorder_asc; [exact S1|]. intros c Hc. rewrite forallb_forall in S2.
     specialize (S2 c Hc). apply Nat.ltb_lt in S2. rewrite Hl. exact S2. }
-  assert (I' : inv (set_rows d t (t_rows tb ++ rs))).
-  { constructor.
-    - rewrite names_set_rows. apply inv_names. exact I.
-    - intros x row Hx Hrow. apply In_set_rows in Hx. destruct Hx as [[y [Hy [Hn ->]]]|[Hx Hn]].
-      + assert (y = tb) by (pose proof (In_get_table _ _ (inv_names _ I) Hy) as Gy; rewrite Hn in Gy; congruence).
-        subst y. cbn in Hrow. apply in_app_or in Hrow. destruct Hrow as [Hrow|Hrow].
-        * apply (inv_arity _ I tb); assumption.
-        * apply (F row Hrow).
-      + apply (inv_arity _ I x); assumption.
-    - rewrite (schema_standard_sames _ _ SS). apply inv_std. exact I.
-    - intros x pk Hx Hpk. apply In_set_rows in Hx. destruct Hx as [[y [Hy [Hn ->]]]|[Hx Hn]].
-      + assert (y = tb) by (pose proof (In_get_table _ _ (inv_names _ I) Hy) as Gy; rewrite Hn in Gy; congruence).
-        subst y. cbn in *. rewrite map_app. destruct (K pk Hpk) as [ND KK].
-        apply NoDup_app_intro.
-        * apply (inv_keys _ I tb pk Gin Hpk).
-        * erewrite map_ext_in; [exact ND|]. intros a Ha. symmetry. apply PKC; assumption.
-        * intros k Hk1 Hk2. apply in_map_iff in Hk2. destruct Hk2 as [x [Ex Hx]].
-          destruct (KK x Hx) as [_ K2]. apply K2. rewrite (PKC pk x Hpk Hx). rewrite Ex. exact Hk1.
-      + apply (inv_keys _ I x pk Hx Hpk).
-    - eapply pk_cols_ok_sames; [exact SS|apply inv_pkcols; exact I].
-    - intros x pk row Hx Hpk Hrow. apply In_set_rows in Hx. destruct Hx as [[y [Hy [Hn ->]]]|[Hx Hn]].
-      + assert (y = tb) by (pose proof (In_get_table _ _ (inv_names _ I) Hy) as Gy; rewrite Hn in Gy; congruence).
-        subst y. cbn in *. apply in_app_or in Hrow. destruct Hrow as [Hrow|Hrow].
-        * apply (inv_pknn _ I tb pk row Gin Hpk Hrow).
-        * destruct (F row Hrow) as [_ [Hnn _]]. apply (notnull_pk_nonnull tb); [exact Hnn|].
-          apply (inv_pkcols _ I tb pk Gin Hpk).
-      + apply (inv_pknn _ I x pk row Hx Hpk Hrow). }
-  split; [exact I'|].
-  (* RI *)
-  assert (PARENT : forall fk vs, (exists pt pr, get_table d (fk_parent fk) = Some pt /\ In pr (t_rows pt)
-                                  /\ proj (fk_pcols fk) pr = vs) ->
-            exists pt pr, get_table (set_rows d t (t_rows tb ++ rs)) (fk_parent fk) = Some pt /\ In pr (t_rows pt)
-                                  /\ proj (fk_pcols fk) pr = vs).
-  { intros fk vs [pt [pr [Gp [Hpr Ek]]]]. rewrite get_set_rows. destruct (Nat.eqb t (fk_parent fk)) eqn:Et.
-    - apply Nat.eqb_eq in Et. rewrite <- Et in Gp. rewrite G in Gp. inversion Gp; subst pt.
-      rewrite <- Et, G. cbn. exists (with_rows tb (t_rows tb ++ rs)), pr. cbn. split; [reflexivity|].
-      split; [apply in_or_app; left; exact Hpr|exact Ek].
-    - exists pt, pr. auto. }
-  intros ct fk row Hct Hfk Hrow HN. apply In_set_rows in Hct. destruct Hct as [[y [Hy [Hn ->]]]|[Hx Hn]].
-  - assert (y = tb) by (pose proof (In_get_table _ _ (inv_names _ I) Hy) as Gy; rewrite Hn in Gy; congruence).
-    subst y. cbn in *. apply PARENT. apply in_app_or in Hrow. destruct Hrow as [Hrow|Hrow].
-    + apply (R tb fk row Gin Hfk Hrow HN).
-    + destruct (F row Hrow) as [_ [_ Hv]].
-      apply (validated_row_has_parents proj_colorder d tb row I Gin); auto.
-  - apply PARENT. apply (R ct fk row Hx Hfk Hrow HN).
+  apply (append_rows_ok d t tb rs I R G).
+  - intros x Hx. apply (F x Hx).
+  - intros pk Hpk. destruct (K pk Hpk) as [ND KK]. split.
+    + erewrite map_ext_in; [exact ND|]. intros a Ha. symmetry. apply PKC; assumption.
+    + intros x Hx. destruct (KK x Hx) as [_ K2]. rewrite (PKC pk x Hpk Hx) in K2. split; [exact K2|].
+      destruct (F x Hx) as [_ [Hnn _]]. apply (notnull_pk_nonnull tb); [exact Hnn|].
+      apply (inv_pkcols _ I tb pk Gin Hpk).
+  - intros x fk Hx Hfk HN. destruct (F x Hx) as [_ [_ Hv]].
+    apply (validated_row_has_parents proj_colorder d tb x I Gin); auto.
+Qed.
+
+(* ------------------------------------------------------------------------------------ *)
+(** * INSERT ... SELECT *)
+
+Lemma bulk_loop_suffix : forall rows d dst seen n ev w r,
+  bulk_loop d dst rows seen n ev = (w, r) -> exists l, snd w = l ++ ev.
+Proof.
+  induction rows as [|x rows IH]; intros d dst seen n ev w r H; cbn in H.
+  - inversion H; subst. exists []. reflexivity.
+  - destruct (get_table d dst) as [tb|]; [|inversion H; subst; exists []; reflexivity].
+    destruct (match _ with Some k => _ | None => false end) eqn:Edup in H.
+    + inversion H; subst. exists [EvBulkPkCollision]. reflexivity.
+    + destruct (fk_validate proj d (t_fks tb) x); [inversion H; subst; exists []; reflexivity|].
+      apply IH in H. destruct H as [l E].
+      destruct (match t_pk tb with Some pk => Some (proj pk x) | None => None end) as [k|]; [destruct (has_null k)|];
+        cbn in E; rewrite E; [exists (l ++ [EvBulkNullKey]); rewrite <- app_assoc; reflexivity|exists l; reflexivity..].
+Qed.
+
+Lemma bulk_loop_ok : forall rows d dst seen n ev w r nc,
+  inv d -> RI d -> (forall tb, get_table d dst = Some tb -> ncols tb = nc) ->
+  (forall x, In x rows -> length x = nc) ->
+  bulk_loop d dst rows seen n ev = (w, r) -> snd w = ev -> inv (fst w) /\ RI (fst w).
+Proof.
+  induction rows as [|x rows IH]; intros d dst seen n ev w r nc I R NC HA H Hc; cbn in H.
+  - inversion H; subst. auto.
+  - destruct (get_table d dst) as [tb|] eqn:G; [|inversion H; subst; auto].
+    pose proof (get_table_In _ _ _ G) as [Gin Gn].
+    destruct (match match t_pk tb with Some pk => Some (proj pk x) | None => None end, t_pk tb with
+              | Some k, Some pk => key_mem k seen || key_mem k (map (proj pk) (t_rows tb))
+              | _, _ => false end) eqn:Edup.
+    + inversion H as [[Hw Hr]]. rewrite <- Hw in Hc. cbn in Hc. exfalso. assert (X : length (EvBulkPkCollision :: ev) = length ev) by (rewrite Hc; reflexivity). cbn in X. lia.
+    + destruct (fk_validate proj d (t_fks tb) x) eqn:Ef; [inversion H; subst; auto|].
+      destruct (bulk_loop_suffix _ _ _ _ _ _ _ _ H) as [l El]. rewrite Hc in El.
+      (* the ghost log did not grow: the key is NULL-free *)
+      assert (NK : forall pk, t_pk tb = Some pk -> has_null (proj pk x) = false).
+      { intros pk Hpk. rewrite Hpk in El. destruct (has_null (proj pk x)) eqn:En; [|reflexivity].
+        exfalso. cbn in El. assert (X : length ev = length (l ++ EvBulkNullKey :: ev)) by (rewrite <- El; reflexivity).
+        rewrite app_length in X. cbn in X. lia. }
+      assert (EV : (let nullkey := match match t_pk tb with Some pk => Some (proj pk x) | None => None end with
+                                   | Some k => has_null k | None => false end in
+                    if nullkey then EvBulkNullKey :: ev else ev) = ev).
+      { destruct (t_pk tb) as [pk|] eqn:Epk; cbn; [rewrite (NK pk eq_refl)|]; reflexivity. }
+      cbn zeta in H. cbn zeta in EV. rewrite EV in H.
+      destruct (append_rows_ok d dst tb [x] I R G) as [I1 R1].
+      * intros y [<-|[]]. rewrite (NC tb eq_refl). apply HA. left. reflexivity.
+      * intros pk Hpk. split; [cbn; repeat constructor; intros []|]. intros y [<-|[]]. split; [|apply NK; exact Hpk].
+        rewrite Hpk in Edup. apply orb_false_iff in Edup. destruct Edup as [_ E2]. apply key_mem_false in E2. exact E2.
+      * intros y fk [<-|[]] Hfk HN. eapply (validated_row_has_parents proj d tb x); eauto.
+      * eapply (IH _ _ _ _ _ _ _ nc I1 R1); [| |exact H|exact Hc].
+        -- intros tb' G'. rewrite (get_set_rows_same _ _ _ _ G) in G'. inversion G'; subst tb'. cbn. apply (NC tb eq_refl).
+        -- intros y Hy. apply HA. right. exact Hy.
+Qed.
+
+Theorem exec_insert_select_ok : forall d dst src simple sel d' ev r,
+  inv d -> RI d -> exec_insert_select d dst src simple sel = ((d', ev), r) -> ev = [] -> inv d' /\ RI d'.
+Proof.
+  intros d dst src simple sel d' ev r I R E Hev. unfold exec_insert_select in E.
+  destruct (get_table d dst) as [dt|] eqn:Gd; [|inversion E; subst; auto].
+  assert (PLAIN : insert_selected d dst src dt sel = ((d', ev), r) -> inv d' /\ RI d').
+  { intros E'. unfold insert_selected in E'. destruct (get_table d src) as [st0|]; [|inversion E'; subst; auto].
+    destruct (Nat.eqb (ncols st0) (ncols dt)); [|inversion E'; subst; auto].
+    destruct (exec_insert_ok _ _ _ _ _ _ I R E') as [_ H]. exact H. }
+  destruct (if simple && negb (Nat.eqb src dst) then get_table d src else None) as [st|] eqn:Gs; [|auto].
+  destruct (bulk_compatible dt st) eqn:Ec; [|auto].
+  destruct (bulk_loop d dst (t_rows st) [] 0 []) as [[dw evw] r0] eqn:EB.
+  assert (Gs' : get_table d src = Some st) by (destruct (simple && negb (Nat.eqb src dst)); [exact Gs|discriminate]).
+  pose proof (get_table_In _ _ _ Gs') as [Gsin _].
+  assert (OK : evw = [] -> inv dw /\ RI dw).
+  { intros Hw. apply (bulk_loop_ok _ _ _ _ _ _ _ _ (ncols dt) I R) in EB; auto.
+    - intros tb G. rewrite Gd in G. inversion G. reflexivity.
+    - intros x Hx. rewrite (inv_arity _ I st x Gsin Hx). unfold bulk_compatible in Ec.
+      apply andb_true_iff in Ec. destruct Ec as [Ec _]. apply Nat.eqb_eq in Ec. symmetry. exact Ec. }
+  assert (PM : forall e0, (partial_mark d (dw, evw), e0) = ((d', ev), r) -> inv d' /\ RI d').
+  { intros e0 E'. unfold partial_mark in E'. cbn [fst snd log] in E'. destruct (db_rows_eqb d dw).
+    - inversion E'; subst. apply OK. reflexivity.
+    - inversion E'; subst. discriminate. }
+  destruct r0.
+  - inversion E; subst. apply OK. reflexivity.
+  - eapply PM. exact E.
+  - eapply PM. exact E.
+  - eapply PM. exact E.
 Qed.
 
 (* ------------------------------------------------------------------------------------ *)
